@@ -133,7 +133,9 @@ def check_invariance(task, inp):
     base = _scores(task, inp, **kw)
     variants = []
     tr = inp.get("transform") or {}
-    if task.SHIFT and "shift" in tr:
+    # the shift claim is made on the exact-arithmetic (dyadic) lattice only: on a decimal grid a shift moves
+    # distances across a tolerance by one rounding (the statement excludes threshold-rounding cases)
+    if task.SHIFT and "shift" in tr and inp.get("lattice") != "decimal":
         variants.append(("shift by %s" % tr["shift"], task.shift(inp, Fr(tr["shift"])), getattr(task, "SHIFT_SCORES", None)))
     import random
     rng = random.Random(tr.get("seed", 0))
